@@ -28,6 +28,17 @@ Definition macs_of_tok (s : string) : option (list mac) := opt_list (map mac_of_
 Definition m_entries (ms : list mac) (s : state) : string :=
   join "" (map (fun m => match ip_addrs m s with Some _ => "e" | None => "n" end) ms).
 
+(* every other field the model has, compared with the model only (echoed into the reference column like X): per MAC the
+   entry's offer / IP4 / GUA / LLA / flags / names, per host dirty and names, the order of the hosts by LastSeen *)
+Definition m_rest (ms : list mac) (s : state) : string :=
+  "|O:" ++ join "," (map (fun m => match find_mac m (macs s) with
+                                   | Some e => show_ip (m_offer e) ++ "/" ++ show_ip (m_ip4 e) ++ "/" ++ show_ip (m_gua e) ++ "/" ++
+                                               show_ip (m_lla e) ++ "/" ++ b01 (m_online e) ++ b01 (m_captured e) ++ b01 (m_router e) ++
+                                               "/" ++ show_names (m_names e)
+                                   | None => "-" end) ms) ++
+  "|D:" ++ join "," (map (fun e => show_ip (fst e) ++ "/" ++ b01 (h_dirty (snd e)) ++ "/" ++ show_names (h_names (snd e))) (sorted_hosts s)) ++
+  "|L:" ++ join "<" (map (fun e => show_ip (fst e)) (sort_by last_leb (sorted_hosts s))).
+
 (* ---- model side ---- *)
 Definition m_views (ips : list ip) (ms : list mac) (s : state) : string :=
   "G:" ++ join "," (map (fun e => show_tr (h_mac (snd e)) (h_ip (snd e)) (h_online (snd e))) (sorted_hosts s)) ++
@@ -38,7 +49,7 @@ Definition m_views (ips : list ip) (ms : list mac) (s : state) : string :=
   "|B:" ++ join "," (map (fun m => join "+" (map show_ip (sort_by ip_leb (map snd (find_by_mac m s))))) ms) ++
   "|E:" ++ join "" (map (fun m => match find_mac_entry m s with
                                   | Some e => b01 (negb (Nat.eqb (List.length (m_hosts e)) 0)) | None => "0" end) ms) ++
-  "|X:" ++ m_entries ms s.
+  "|X:" ++ m_entries ms s ++ m_rest ms s.
 
 (* ---- reference side ---- *)
 Definition r_views (ips : list ip) (ms : list mac) (s : state) (a : amap) : string :=
@@ -48,7 +59,7 @@ Definition r_views (ips : list ip) (ms : list mac) (s : state) (a : amap) : stri
   "|A:" ++ join "," (map (fun m => join "+" (map show_ip (of_mac m))) ms) ++
   "|B:" ++ join "," (map (fun m => join "+" (map show_ip (of_mac m))) ms) ++
   "|E:" ++ join "" (map (fun m => b01 (negb (Nat.eqb (List.length (of_mac m)) 0))) ms) ++
-  "|X:" ++ m_entries ms s.
+  "|X:" ++ m_entries ms s ++ m_rest ms s.
 
 Fixpoint run4 (c : cfg) (ips : list ip) (ms : list mac) (s : state) (a : amap) (ops : list pop)
   : list string * list string :=
